@@ -24,6 +24,9 @@ import (
 )
 
 type callSpec struct {
+	postVar  string // the variable the post line declares (same placeholders), and its Lean type
+	postType string
+	post string   // an extra line after the call: %v = the value of the call, %1 ... = arguments, %l = the declared name
 	kind string   // "pure" | "let" | "except" | "opt"
 	tmpl string   // Lean text; %r receiver expression, %1 %2 ... arguments
 	sets []string // names bound by the result ("_" = the value of the call expression)
@@ -37,6 +40,7 @@ type ltarget struct {
 	calls   map[string]callSpec // normalised callee -> binding
 	fields  map[string]string   // receiver field -> Lean variable
 	retFlds []string            // fields of a returned composite literal that make up the result
+	resTy   string              // overrides the result types derived from the Go signature (";"-separated)
 	slices  string              // Lean type of []V and Sequential[V] values: "Slice" (memory model) or "List α"
 	doc     string
 }
@@ -44,6 +48,7 @@ type ltarget struct {
 type lvar struct{ name, ty string }
 
 type ltr struct {
+	pending []lvar  // variables declared by post lines, to be added to the scope by the enclosing statement
 	lhs    []string // names on the left of a multi-value assignment from one call
 	tg     *ltarget
 	info   *types.Info
@@ -86,12 +91,17 @@ func (t *ltr) leanType(ty types.Type, n ast.Node) string {
 			return t.tg.slices
 		}
 	case *types.Named:
+		if sl, ok := u.Underlying().(*types.Slice); ok {
+			if _, ok := sl.Elem().(*types.TypeParam); ok {
+				return t.tg.slices // array_[V]
+			}
+		}
 		switch u.Obj().Name() {
 		case "Rank":
 			return "Rank"
-		case "Sequential", "ListLike", "ArrayLike", "IteratorLike":
+		case "Sequential", "ListLike", "ArrayLike", "IteratorLike", "SetLike":
 			return "List α" // an iterator is what it still has to deliver
-		case "ArrayClassLike", "ListClassLike":
+		case "ArrayClassLike", "ListClassLike", "CollatorLike":
 			return "Unit"
 		}
 	case *types.Alias:
@@ -310,6 +320,11 @@ func (t *ltr) call(e *ast.CallExpr, em *emitter, wantValue bool) string {
 			}
 		}
 	}
+	if tv, ok := t.info.Types[e.Fun]; ok && tv.IsType() && len(e.Args) == 1 {
+		if _, isSlice := tv.Type.Underlying().(*types.Slice); isSlice {
+			return t.expr(e.Args[0], em) // array_[V](x): the same slice under another name
+		}
+	}
 	key, rx := t.callee(e)
 	cs, ok := t.tg.calls[key]
 	if !ok {
@@ -330,14 +345,38 @@ func (t *ltr) call(e *ast.CallExpr, em *emitter, wantValue bool) string {
 	}
 	argText := make([]string, len(e.Args))
 	for i, a := range e.Args {
-		if strings.Contains(text, fmt.Sprintf("%%%d", i+1)) {
+		if strings.Contains(text, fmt.Sprintf("%%%d", i+1)) || strings.Contains(cs.post, fmt.Sprintf("%%%d", i+1)) {
 			argText[i] = t.expr(a, em) // in source order: Go evaluates operands left to right
 		}
 	}
 	for i := len(e.Args); i >= 1; i-- {
 		text = strings.ReplaceAll(text, fmt.Sprintf("%%%d", i), argText[i-1])
 	}
+	emitPost := func(val string) {
+		if cs.post == "" {
+			return
+		}
+		p := strings.ReplaceAll(cs.post, "%v", val)
+		if strings.Contains(p, "%l") {
+			if len(t.lhs) != 1 {
+				t.fail(e, "binding wants a declared name")
+			}
+			p = strings.ReplaceAll(p, "%l", t.lhs[0])
+		}
+		for i := len(e.Args); i >= 1; i-- {
+			p = strings.ReplaceAll(p, fmt.Sprintf("%%%d", i), argText[i-1])
+		}
+		em.line(p)
+		if cs.postVar != "" {
+			v := strings.ReplaceAll(cs.postVar, "%v", val)
+			if len(t.lhs) == 1 {
+				v = strings.ReplaceAll(v, "%l", t.lhs[0])
+			}
+			t.pending = append(t.pending, lvar{v, cs.postType})
+		}
+	}
 	if cs.kind == "pure" {
+		emitPost(text)
 		return text
 	}
 	val := ""
@@ -382,6 +421,7 @@ func (t *ltr) call(e *ast.CallExpr, em *emitter, wantValue bool) string {
 	if wantValue && val == "" {
 		t.fail(e, "call of "+key+" has no value")
 	}
+	emitPost(val)
 	return val
 }
 
@@ -462,7 +502,19 @@ func (t *ltr) stmts(list []ast.Stmt, scope []lvar, em *emitter, k func(scope []l
 		return
 	}
 	s, tail := list[0], list[1:]
-	next := func(sc []lvar, em *emitter) { t.stmts(tail, sc, em, k) }
+	next := func(sc []lvar, em *emitter) {
+		for _, pv := range t.pending {
+			dup := false
+			for _, v := range sc {
+				dup = dup || v.name == pv.name
+			}
+			if !dup {
+				sc = append(sc[:len(sc):len(sc)], pv)
+			}
+		}
+		t.pending = nil
+		t.stmts(tail, sc, em, k)
+	}
 	declare := func(name string, ty types.Type, n ast.Node) {
 		for _, v := range scope {
 			if v.name == name {
@@ -500,7 +552,10 @@ func (t *ltr) stmts(list []ast.Stmt, scope []lvar, em *emitter, k func(scope []l
 			for i, n := range vs.Names {
 				ty := t.info.TypeOf(n)
 				if len(vs.Values) > i {
-					em.line("let " + n.Name + " := " + t.expr(vs.Values[i], em))
+					t.lhs = []string{n.Name}
+					v := t.expr(vs.Values[i], em)
+					t.lhs = nil
+					em.line("let " + n.Name + " := " + v)
 				} else if len(vs.Values) == 0 {
 					em.line("let " + n.Name + " := " + t.zero(ty, n))
 				} else {
@@ -922,7 +977,11 @@ func genLoops(file string, targets []*ltarget) string {
 		}
 		// result type
 		var rtys []string
-		if tg.retFlds != nil {
+		if tg.resTy != "" {
+			for _, f := range strings.Split(tg.resTy, ";") {
+				rtys = append(rtys, strings.TrimSpace(f))
+			}
+		} else if tg.retFlds != nil {
 			for range tg.retFlds {
 				rtys = append(rtys, "") // filled below
 			}
@@ -1003,6 +1062,33 @@ var setCalls = map[string]callSpec{
 			"IteratorLike.HasNext":   {kind: "pure", tmpl: "(!(%r).isEmpty)"},
 		}
 
+// the class functions of the Set: a set is the list of its members; `rank_first`, `rank_second` are the operands' collators,
+// `rank_result` (= `rank_first`: the result is made with the first operand's collator) and `rank_set` (the default collator)
+// those of the sets the functions create
+var setClassCalls = map[string]callSpec{
+	"$.Make":                 {kind: "pure", tmpl: "([] : List α)", post: "let rank_%l := rank_default", postVar: "rank_%l", postType: "(α → α → Rank)"},
+	"$.MakeWithCollator":     {kind: "pure", tmpl: "([] : List α)", post: "let rank_%l := %1", postVar: "rank_%l", postType: "(α → α → Rank)"},
+	"SetLike.GetCollator":    {kind: "pure", tmpl: "rank_%r"},
+	"SetLike.GetIterator":    {kind: "pure", tmpl: "%r"},
+	"Sequential.GetIterator": {kind: "pure", tmpl: "%r"},
+	"IteratorLike.GetNext":   {kind: "let", tmpl: "Seq.itNext %r", sets: []string{"_", "%r"}},
+	"IteratorLike.HasNext":   {kind: "pure", tmpl: "(!(%r).isEmpty)"},
+	"SetLike.AddValue":       {kind: "opt", tmpl: "setAddValue rank_%r %1 %r fuel", sets: []string{"%r"}},
+	"SetLike.AddValues":      {kind: "opt", tmpl: "setAddValues rank_%r %1 %r fuel", sets: []string{"%r"}},
+	"SetLike.RemoveValues":   {kind: "opt", tmpl: "setRemoveValues rank_%r %1 %r fuel", sets: []string{"%r"}},
+	"SetLike.ContainsValue":  {kind: "opt", tmpl: "setContainsValue rank_%r %1 %r fuel", sets: []string{"_", "%r"}},
+	"$.Sans":                 {kind: "opt", tmpl: "setSans rank_%1 rank_%2 %1 %2 fuel", sets: []string{"_"}, post: "let rank_%v := rank_%1", postVar: "rank_%v", postType: "(α → α → Rank)"},
+	"$.Or":                   {kind: "opt", tmpl: "setOr rank_%1 rank_%2 %1 %2 fuel", sets: []string{"_"}, post: "let rank_%v := rank_%1", postVar: "rank_%v", postType: "(α → α → Rank)"},
+}
+
+// the array_ methods on the memory of arrays: the receiver `v` is a slice, a Sequential operand is the list of its values
+// (its AsArray() is a fresh array), `toZeroBased` is the Seq model's (its own tie is `toZeroBased_tie`)
+var arrayCalls = map[string]callSpec{
+			"$.toZeroBased":      {kind: "except", tmpl: "natResult (Seq.toZeroBased v.len %1)", sets: []string{"_"}},
+			"Sequential.GetSize": {kind: "pure", tmpl: "((%r).length : Int)"},
+			"Sequential.AsArray": {kind: "let", tmpl: "Mem.alloc mem %r", sets: []string{"mem", "_"}},
+		}
+
 var rankerParams = "{σ : Type} (ranker : σ → α → α → Rank × σ)"
 
 var loopTargets = []*ltarget{
@@ -1042,6 +1128,16 @@ var loopTargets = []*ltarget{
 	{file: "LoopsSet.lean", pkg: "collection", recv: "set_", name: "RemoveAll", lean: "setRemoveAll",
 		params: "(rankValues : α → α → Rank)", args: "rankValues", state: []string{"values_"}, fields: map[string]string{"values_": "values_"},
 		calls: setCalls, slices: "List α"},
+	{file: "LoopsSet.lean", pkg: "collection", recv: "setClass_", name: "MakeFromSequence", lean: "setMakeFromSequence",
+		params: "(rank_default : α → α → Rank)", args: "rank_default", calls: setClassCalls, slices: "List α"},
+	{file: "LoopsSet.lean", pkg: "collection", recv: "setClass_", name: "And", lean: "setAnd",
+		params: "(rank_first rank_second : α → α → Rank)", args: "rank_first rank_second", calls: setClassCalls, slices: "List α"},
+	{file: "LoopsSet.lean", pkg: "collection", recv: "setClass_", name: "Or", lean: "setOr",
+		params: "(rank_first rank_second : α → α → Rank)", args: "rank_first rank_second", calls: setClassCalls, slices: "List α"},
+	{file: "LoopsSet.lean", pkg: "collection", recv: "setClass_", name: "Sans", lean: "setSans",
+		params: "(rank_first rank_second : α → α → Rank)", args: "rank_first rank_second", calls: setClassCalls, slices: "List α"},
+	{file: "LoopsSet.lean", pkg: "collection", recv: "setClass_", name: "Xor", lean: "setXor",
+		params: "(rank_first rank_second : α → α → Rank)", args: "rank_first rank_second", calls: setClassCalls, slices: "List α"},
 	// C13: the guards and constructors of the Stack (the list underneath is the Seq model)
 	{file: "LoopsStack.lean", pkg: "collection", recv: "stack_", name: "AddValue", lean: "stackAddValue",
 		params: "(capacity_ : Int)", args: "capacity_", state: []string{"values_"},
@@ -1102,6 +1198,20 @@ var loopTargets = []*ltarget{
 	{file: "LoopsList.lean", pkg: "collection", recv: "list_", name: "RemoveAll", lean: "listRemoveAll",
 		params: "", args: "", state: []string{"values_"}, fields: map[string]string{"values_": "values_"},
 		calls: listCalls, slices: "List α"},
+	{file: "LoopsArray.lean", pkg: "collection", recv: "array_", name: "GetValue", lean: "arrayGetValue",
+		params: "(v : Slice)", args: "v", state: []string{"mem"}, calls: arrayCalls, slices: "Slice", resTy: ""},
+	{file: "LoopsArray.lean", pkg: "collection", recv: "array_", name: "GetValues", lean: "arrayGetValues",
+		params: "(v : Slice)", args: "v", state: []string{"mem"}, calls: arrayCalls, slices: "Slice", resTy: "Slice"},
+	{file: "LoopsArray.lean", pkg: "collection", recv: "array_", name: "SetValue", lean: "arraySetValue",
+		params: "(v : Slice)", args: "v", state: []string{"mem"}, calls: arrayCalls, slices: "Slice", resTy: ""},
+	{file: "LoopsArray.lean", pkg: "collection", recv: "array_", name: "SetValues", lean: "arraySetValues",
+		params: "(v : Slice)", args: "v", state: []string{"mem"}, calls: arrayCalls, slices: "Slice", resTy: ""},
+	{file: "LoopsArray.lean", pkg: "collection", recv: "array_", name: "AsArray", lean: "arrayAsArray",
+		params: "(v : Slice)", args: "v", state: []string{"mem"}, calls: arrayCalls, slices: "Slice", resTy: "Slice"},
+	{file: "LoopsArray.lean", pkg: "collection", recv: "array_", name: "GetSize", lean: "arrayGetSize",
+		params: "(v : Slice)", args: "v", state: []string{"mem"}, calls: arrayCalls, slices: "Slice", resTy: ""},
+	{file: "LoopsArray.lean", pkg: "collection", recv: "array_", name: "IsEmpty", lean: "arrayIsEmpty",
+		params: "(v : Slice)", args: "v", state: []string{"mem"}, calls: arrayCalls, slices: "Slice", resTy: ""},
 	// C09: the sorter on a memory of arrays
 	{file: "LoopsSorter.lean", pkg: "agent", recv: "sorter_", name: "mergeArrays", lean: "mergeArrays",
 		params: rankerParams, args: "ranker", state: []string{"mem", "w"},
